@@ -111,6 +111,8 @@ def main():
             for i in range(e2e_n):
                 ctx, entries = G.gen_catalog(rng, fmts)
                 entries = [e for e in entries if G.writable(e)]
+                for e in entries:       # what the loader yields: no msgstr attribute value for plural entries, '' for an empty singular one
+                    e.msgstr = None if e.msgid_plural is not None else (e.msgstr or '')
                 ctx = {'is_template': ctx['is_template'], 'is_binary': False, 'hidden': False, 'encoding': rng.random() < 0.85}
                 name = 'f%d.%s' % (i, 'pot' if ctx['is_template'] else 'po')
                 text = G.render_po(entries, with_header=ctx['encoding'])
